@@ -217,6 +217,7 @@ def forbidden_scan():
         p = os.path.join(root, fn)
         txt = open(p).read()
         txt = re.sub(r'\(\*.*?\*\)', '', txt, flags=re.S)
+        txt = re.sub(r'"(?:[^"]|"")*"', '""', txt)      # string literals are data, not vernacular
         # Section-local Variable/Hypothesis/Context are allowed only inside Sections.
         depth = 0
         for ln, line in enumerate(txt.split('\n'), 1):
